@@ -12,6 +12,7 @@ From QSX Require Import Store.Matrix Store.L2.
 From QSX Require Import IO.LpWrite IO.LpRead IO.MpsWrite IO.LpRoundtrip IO.LpNames.
 From QSX Require Import IO.MpsRead.
 From QSX Require Import IO.MpsWf.
+From QSX Require Import IO.Esolver.
 (* one Require line per area may be added below *)
 
 Extraction Language OCaml.
@@ -36,5 +37,6 @@ Extraction "model.ml"
   write_lp file_bytes read_lp_res split_lines to_nlp write_mps wf_lpb fix_names default_objname
   read_mps_res mlp_to_nlp
   wf_mpsb wf_coreb setnames_okb write_mps_fixed
+  esolver the_ftype get_ftype parse_args
   (* add names below, one line per area *)
   .
